@@ -59,4 +59,4 @@ def run(ctx):
 
 
 def replay(ctx, rp):
-    return diffcheck.replay(ctx, ae, rp)
+    return diffcheck.replay(ctx, ae, rp, oracle=oracle)
